@@ -427,6 +427,26 @@ class Unit:
                 if anchor == '@body_start':
                     splices.append((lo_ + 1, ins))
                     continue
+                if anchor == '@body_end':
+                    # just before the closing brace of the function body (only meaningful
+                    # when the body ends with a statement, not with a tail expression)
+                    splices.append((hi_, ins))
+                    continue
+                if anchor.startswith('@after_stmt:'):
+                    # after the `;` that ends the statement beginning with the given text
+                    head = anchor[len('@after_stmt:'):]
+                    if text.count(head) != 1:
+                        raise ExtractError('%s: %s: statement head found %d times' % (where, anchor, text.count(head)))
+                    j = text.index(head)
+                    while j < len(text):
+                        if code[j]:
+                            if text[j] in '([{':
+                                j = rsitems.match_bracket(text, code, j)
+                            elif text[j] == ';':
+                                break
+                        j += 1
+                    splices.append((j + 1, ins))
+                    continue
                 kind_, _, ord_ = anchor[1:].partition(':')
                 loops = rsitems.loops_in(text, lo_, hi_, code)
                 if int(ord_) >= len(loops):
